@@ -37,6 +37,10 @@ SPICY_NAMES = [False]  # set per scenario by the property (names with blanks, ma
 def _name(rng, prefix, used):
     while True:
         n = prefix + "".join(rng.choice("ABCDEFGHIJKLMNOPQRSTUVWXYZ_") for _ in range(rng.randint(1, 5)))
+        if used and rng.random() < 0.15:
+            # sibling names that contain one another (CONNECT / DISCONNECT, PARK / UNPARK, S1 / S10)
+            base = rng.choice(sorted(used))
+            n = rng.choice([base + "0", "UN" + base, base + "_X", base[:-1] if len(base) > 2 else base + "Q"])
         if SPICY_NAMES[0] and rng.random() < 0.3:
             n += rng.choice([" X", "&Y", "<Z", "\xe9", "'q", '"d', ">g", "\u0142", ".a-b"])
         if n not in used:
@@ -160,7 +164,8 @@ def _build_vector(v):
     if v["kind"] == "Switch":
         kw["rule"] = v["rule"]
         if v["default_on"]:
-            kw["default_on"] = tuple(v["default_on"])
+            # one default is given as a plain string (the documented short form), several as a tuple
+            kw["default_on"] = v["default_on"][0] if len(v["default_on"]) == 1 else tuple(v["default_on"])
     return _VCLS[v["kind"]](v["name"], **kw)
 
 
